@@ -224,6 +224,10 @@ thread_local! {
 pub fn quiet_panics() {
     std::panic::set_hook(Box::new(|info| {
         let loc = info.location().map(|l| format!("{}:{}", l.file(), l.line())).unwrap_or_default();
+        // panics raised by harness code itself are machinery failures: keep them visible
+        if loc.starts_with("src/") || std::env::var("VERIF_VERBOSE").map(|v| v == "2").unwrap_or(false) {
+            eprintln!("harness panic at {}: {}", loc, info);
+        }
         LAST_PANIC_LOC.with(|c| *c.borrow_mut() = loc);
     }));
 }
